@@ -238,26 +238,37 @@ def r2_evaluators(ctx):
 def r3_every_evaluate_is_counted(ctx):
     F = ctx.facts
     sites = eval_sites(F)
-    ctx.floor("C06.R3", "call sites of Evaluate::evaluate", len(sites), 2)
     pe_exec = F.method(PE, "execute", COMPONENT)
+    FA_EXEC = "<mahf::components::swarm::fa::FireflyPositionsUpdate as mahf::components::Component>::execute"
 
-    def owner_of(fn_, depth=0):
-        """the component method a (helper) function works for: lifted through private helpers that have a single caller"""
-        if depth > 3 or fn_.impl_trait == COMPONENT:
-            return fn_
-        callers = {g.key: g for (g, b_, t_) in F.callers_of(lambda c, k=fn_.key: c.get("key") == k)}
-        if len(callers) == 1 and getattr(fn_, "vis", None) not in ("pub", "public"):
-            return owner_of(list(callers.values())[0], depth + 1)
-        return fn_
-    for (f, bb, t, sl, root) in sites:
-        if owner_of(root).key == pe_exec.key:
+    def owners_of(fn_, depth=0, seen=None):
+        """the component methods a (helper) function works for: lifted through the callers of private helpers (an extracted
+        helper may be shared by several components)"""
+        seen = seen if seen is not None else set()
+        if fn_.key in seen:
+            return set()
+        seen.add(fn_.key)
+        if depth > 4 or fn_.impl_trait == COMPONENT or getattr(fn_, "vis", None) in ("pub", "public"):
+            return {fn_.key}
+        callers = {}
+        for (g, b_, t_) in F.callers_of(lambda c, k=fn_.key: c.get("key") == k):
+            while g.kind == "Closure" and g.parent and F.fn_opt(g.parent) is not None:
+                g = F.fn(g.parent)
+            callers[g.key] = g
+        if not callers:
+            return {fn_.key}
+        out = set()
+        for g in callers.values():
+            out |= owners_of(g, depth + 1, seen)
+        return out
+    site_owners = [(site, owners_of(site[4])) for site in sites]
+    ctx.floor("C06.R3", "components that invoke Evaluate::evaluate", len(set().union(*[o for _s, o in site_owners])) if site_owners else 0, 2)
+    for ((f, bb, t, sl, root), owners) in site_owners:
+        if owners and owners <= {pe_exec.key, FA_EXEC}:
             # the evaluation step itself: what is handed to the evaluator and how far the counter advances is decided exactly
-            # (for stacks, sizes, present / absent evaluator) by C06.R1 on the component as a whole, helpers included
-            ctx.ok("C06.R3", root.key, "evaluation-counted", "evaluation step: decided by C06.R1 on PopulationEvaluator::execute")
-            continue
-        if owner_of(root).key == "<mahf::components::swarm::fa::FireflyPositionsUpdate as mahf::components::Component>::execute":
-            # the firefly update: every move evaluated once by the held evaluator and counted - decided by C06.R7 (helpers included)
-            ctx.ok("C06.R3", root.key, "evaluation-counted", "firefly update: decided by C06.R7")
+            # (for stacks, sizes, present / absent evaluator) by C06.R1 on the component as a whole, helpers included; the firefly
+            # update (every move evaluated once by the held evaluator and counted) by C06.R7, helpers included
+            ctx.ok("C06.R3", root.key, "evaluation-counted", "decided on the whole component by %s" % " / ".join(sorted(("C06.R1" if o == pe_exec.key else "C06.R7") for o in owners)))
             continue
         # any OTHER place that invokes an evaluator: the CFG pairing below (evaluation followed by an equal advance of the counter)
         body = root.body
